@@ -129,3 +129,12 @@ Example C19_record_example :
   format_record (mkRP [] [] None) (mkRec d (lit "raw")) =
   Ok (mkRP [(lit "a", 9); (lit "b", 11)] [lit "a"; lit "b"] None, lit "[a=1]        [b=x y]").
 Proof. exact record_example. Qed.
+
+(** KF-53 - "cells that fit are shown in full" against the allocation: a column asking for 69 (a 61-character url) next to one
+    asking for 14, on 80 columns, is capped at 80 / 2 = 40 although 66 are free once the narrow one is served; what a narrow later column
+    does not need is never given back (the allocation that would, narrowest first, fails the pinned test longlines.toml) *)
+Theorem C19_width_allocation_refuted :
+  let w' := resize_widths [(lit "url", 69); (lit "_count", 14)] [lit "url"; lit "_count"] 80 in
+  get (lit "url") w' = Some 40 /\ get (lit "_count") w' = Some 14 /\ 69 + 14 > 80 /\ 61 <= 80 - 14.   (* the cell's text is 61 characters; 69 is the width it asks for, padding included *)
+Proof. cbv zeta. split; [vm_compute; reflexivity|split; [vm_compute; reflexivity|split; lia]]. Qed.
+Print Assumptions C19_width_allocation_refuted.
